@@ -48,6 +48,18 @@ CHECKS = {
         text='Unbounded inductive step on ReadFileChunk + AggregatedProgressCallback (any number of rewinds), plus '
              'bounded e2e sums for uploads/downloads/copies with symbolic read sizes, re-sends and stream faults.',
         note=_NOTE + '; A3 botocore body protocol assumed', technique=_T),
+    'C10': dict(
+        text='Wiring with the limits as unbounded symbolic integers; BoundedExecutor permit discipline from an arbitrary '
+             'number of free permits; stage attribution, in-flight request count and per-stage occupancy in '
+             'nested-schedule runs with limits symbolic in 1..3.',
+        note=_NOTE + '; nested (LIFO) schedules only; stdlib ThreadPoolExecutor trusted to honour max_workers',
+        technique=_T + ' over nested schedules'),
+    'C11': dict(
+        text='Live stream-upload buffers (bytes read minus bytes of finished requests), the non-seekable download '
+             'window (highest requested vs lowest unfinished part) and pending writes, in laziest-consumer and nested '
+             'schedules with the limits symbolic in 1..3; tag placement.',
+        note=_NOTE + '; A4 (BufferedReader contract) for the per-buffer size clause; nested schedules only',
+        technique=_T + ' over nested schedules'),
     'C12': dict(
         text='Inductive step on the real SlidingWindowSemaphore from an arbitrary invariant-satisfying state (unbounded '
              'counters) against a reference model, bounded API histories, TaskSemaphore conservation, quiescence of '
@@ -66,6 +78,17 @@ CHECKS = {
         text='Reference state machine vs the real TransferCoordinator/TransferFuture: one step from every consistent '
              'state (symbolic state and operation index) and all operation sequences of length 4 (thorough 5).',
         note=_NOTE, technique=_T),
+    'C13': dict(
+        text='Integer accounting of BandwidthLimitedStream against a stub bucket; the real ConsumptionScheduler / '
+             'LeakyBucket / BandwidthRateTracker over z3 reals (shim S3): wait accumulation, abandoned waiters, '
+             'one-step admission rule and the never-delayed-below-the-limit induction step from an arbitrary state.',
+        note=_NOTE + '; reals instead of binary64 (A2); the windowed 1.25 bound for unbounded histories is not proved',
+        technique=_T + ' (nonlinear real arithmetic)'),
+    'C18': dict(
+        text='Three transfers of different types on one real manager over model executors; which one fails (symbolic '
+             'fault index) or is cancelled (symbolic point) is decided by the solver; isolation oracle per transfer, '
+             'then shutdown barrier (no event after return, executors closed) or a fresh transfer.',
+        note=_NOTE + '; nested (LIFO) schedules only', technique=_T + ' over nested schedules'),
     'C14': dict(
         text='Planning kernels confirmed over all paths at real scale (size <= 5 TiB, chunk <= 8 GiB, symbolic part '
              'index): every input in the stated domain is covered by the solver, not sampled. Bounded claim: the '
